@@ -103,13 +103,16 @@ def enumerate_cases(tier, shard=0, nshards=1):
 
 def _build(d):
     xl = lib.lib()
-    names = [n for n in _funcs(xl)
-             if any(k in ('num',) for k in FT.kinds_of_args(
-                 xl, n, FT.samples_for(xl, n)[0]))]
+    def scalar_num_positions(n):
+        args = FT.samples_for(xl, n)[0]
+        kinds = FT.kinds_of_args(xl, n, args)
+        pk = FT.param_kinds(xl, n)
+        return [i for i, k in enumerate(kinds)
+                if k == 'num' and i < len(pk) and not pk[i][2]]
+    names = [n for n in _funcs(xl) if scalar_num_positions(n)]
     fn = d.choice(names)
     args = FT.samples_for(xl, fn)[0]
-    kinds = FT.kinds_of_args(xl, fn, args)
-    poss = [i for i, k in enumerate(kinds) if k == 'num']
+    poss = scalar_num_positions(fn)
     pos = d.choice(poss)
     mant = d.int(-99999, 99999)
     v = mant / d.choice([1, 10, 100, 1000, 8])
